@@ -5,7 +5,7 @@ package main
 
 import "fmt"
 
-var allPopKinds = []string{"tampered", "unsigned", "foreign", "other-step-key", "forged-keyid", "extra-sigs", "dup-infix", "wrong-name-len", "garbage", "bad-sig-encoding", "corrupt-sig", "cert", "cert"}
+var allPopKinds = []string{"tampered", "unsigned", "foreign", "other-step-key", "forged-keyid", "extra-sigs", "dup-infix", "keyid-variant", "keyid-variant", "wrong-name-len", "garbage", "bad-sig-encoding", "corrupt-sig", "cert", "cert"}
 
 var alterKinds = []string{"mutate-field", "mutate-field", "mutate-field", "drop-sig", "reorder-sigs", "dup-sig", "corrupt-sig", "swap-keyids", "foreign-verifier", "empty-keyset", "wrong-key", "verifier-subset", "signed-by-others-only"}
 
@@ -51,12 +51,13 @@ func init() {
 			cfg.Inspections = []string{"create"}
 			if i%5 != 0 {
 				cfg.Alter = alterKinds[rng.Intn(len(alterKinds))]
+				cfg.Prime = rng.Chance(60)
 			}
 			if rng.Chance(10) {
 				cfg.Depth = 1
 			}
 			return cfg
-		}, "generated 1-3 step chains, 1-2 layout signer keys from an RSA/ECDSA/Ed25519 pool, both wrappers, both entry points, every layout carries an inspection that appends to a marker file; 4 of 5 cases apply one alteration after signing (a string anywhere in the signed layout, drop/reorder/duplicate/corrupt a signature, swap key ids, add a foreign verifier key, empty key set, wrong key, verifier subset, same key id but other key); compared: verdict, summary, inspection commands that actually ran. Class = (wrapper, entry, alteration, verdict).")
+		}, "generated 1-3 step chains, 1-2 layout signer keys from an RSA/ECDSA/Ed25519 pool, both wrappers, both entry points, every layout carries an inspection that appends to a marker file; 4 of 5 cases apply one alteration after signing (a string anywhere in the signed layout, drop/reorder/duplicate/corrupt a signature, swap key ids, add a foreign verifier key, empty key set, wrong key, verifier subset, same key id but other key), in 60% of them after the authentic layout was verified in the same process; compared: verdict, summary, inspection commands that actually ran. Class = (wrapper, entry, alteration, verdict).")
 	}
 	props["C02"] = func(r *Runner, tier string, rng *Rng) {
 		runChains(r, rng, tierN(tier, 300, 8000), func(i int) *ChainCfg {
@@ -65,6 +66,7 @@ func init() {
 			cfg.Thresholds = []int{0, 1, 1, 2, 2, 3}
 			cfg.PopKinds = allPopKinds
 			cfg.ExtraPerStep = rng.Intn(4)
+			cfg.ShortPct = 25
 			cfg.CertSteps = rng.Chance(60)
 			if cfg.CertSteps {
 				cfg.LinkDSSE = false
@@ -72,7 +74,7 @@ func init() {
 			}
 			cfg.NSteps = 1 + rng.Intn(2)
 			return cfg
-		}, "per step: threshold 0-3, 1-3 authorized keys, `threshold` honest links (sometimes one too few) plus 0-3 extra files drawn from: tampered, unsigned, foreign key, key of another step, forged key id, extra signatures, duplicate under another infix, wrong name length, garbage, undecodable signature, corrupted signature, certificate-signed (good / expired / foreign-root / missing-intermediate chains, forged first key id); both wrappers; compared: verdict and summary. Class = (population kinds, verdict).")
+		}, "per step: threshold 0-3, 1-3 authorized keys, `threshold` honest links (one too few in a quarter of the steps) plus 0-3 extra files drawn from: tampered, unsigned, foreign key, key of another step, forged key id, extra signatures, duplicate under another infix, an already counted functionary again under a letter-case variant of its key id, wrong name length, garbage, undecodable signature, corrupted signature, certificate-signed (good / expired / foreign-root / missing-intermediate chains, forged first key id); both wrappers; compared: verdict and summary. Class = (population kinds, verdict).")
 	}
 	props["C05"] = func(r *Runner, tier string, rng *Rng) {
 		runChains(r, rng, tierN(tier, 250, 6000), func(i int) *ChainCfg {
